@@ -14,6 +14,7 @@ package main
 
 import (
 	"bytes"
+	"context"
 	"crypto/md5"
 	"crypto/tls"
 	"crypto/x509"
@@ -257,6 +258,10 @@ func runPass(a []string) string {
 			}
 			w.Header()["Trailer"] = []string{strings.Join(names, ", ")}
 		}
+		if len(sc.resp.trailers) == 0 && sc.resp.bodySeed%2 == 0 && sc.status != 204 && sc.status != 304 {
+			// a declared length: the proxy's response writer checks every write against it
+			w.Header()["Content-Length"] = []string{strconv.Itoa(sc.resp.bodyLen)}
+		}
 		w.WriteHeader(sc.status)
 		data := passBody(sc.resp.bodySeed, sc.resp.bodyLen)
 		fl, _ := w.(http.Flusher)
@@ -337,6 +342,9 @@ func runPass(a []string) string {
 		if _, ok := req.Header["User-Agent"]; !ok {
 			req.Header["User-Agent"] = []string{"verif-pass/1"}
 		}
+		ctx, cancel := context.WithTimeout(context.Background(), 20*time.Second)
+		defer cancel()
+		req = req.WithContext(ctx)
 		resp, err := rt.RoundTrip(req)
 		if err != nil {
 			res[i] = "roundtrip-error:" + strings.ReplaceAll(err.Error(), " ", "_")
@@ -467,6 +475,11 @@ func init() {
 			if c.tier == "thorough" || r.chance(1, 10) {
 				maxBody = 5 << 20
 			}
+			soak := i%40 == 7
+			if soak {
+				proto, n, conc = "h2", 70+r.intn(20), r.chance(1, 3)
+				c.tag("soak")
+			}
 			var parts []string
 			for k := 0; k < n; k++ {
 				method := []string{"GET", "POST", "PUT", "DELETE", "PATCH", "OPTIONS", "HEAD", "POST"}[r.intn(8)]
@@ -483,6 +496,10 @@ func init() {
 						[2]string{"Connection", "keep-alive, X-Drop-2"}, [2]string{"X-Drop-2", "2"}, [2]string{"Proxy-Connection", "keep-alive"})
 				}
 				rq := genPassHalf(r.fork(), passReqNames, hop, maxBody)
+				if soak {
+					method = "POST"
+					rq.bodyLen, rq.pieces, rq.trailers = 16384+r.intn(20000), r.intn(4), nil
+				}
 				if method == "GET" || method == "HEAD" || method == "OPTIONS" || method == "DELETE" {
 					if r.chance(3, 4) {
 						rq.bodyLen = 0
@@ -491,6 +508,9 @@ func init() {
 				}
 				rhop := [][2]string{{"Keep-Alive", "timeout=3"}, {"Connection", "X-Resp-Drop"}, {"X-Resp-Drop", "1"}, {"Proxy-Authenticate", "Basic realm=x"}}
 				rs := genPassHalf(r.fork(), passRespNames, rhop, maxBody)
+				if soak {
+					rs.bodyLen, rs.trailers = r.intn(300), nil
+				}
 				status := []int{200, 200, 200, 201, 202, 204, 206, 301, 302, 304, 400, 401, 403, 404, 409, 418, 500, 502, 503}[r.intn(19)]
 				if status == 204 || status == 304 || method == "HEAD" {
 					rs.bodyLen = 0
